@@ -76,8 +76,9 @@ def regex_tree(p):
         if isinstance(x, sp.SubPattern): return [conv(i) for i in x.data]
         if isinstance(x, tuple): return [conv(i) for i in x]
         if isinstance(x, list): return [conv(i) for i in x]
+        if type(x).__name__ == "_NamedIntConstant": return str(x)   # opcode constants
         if isinstance(x, (int, str)) or x is None: return x
-        return str(x)          # opcode constants
+        return str(x)
     pat = p.pattern
     tree = sp.parse(pat, p.flags)
     return {"pattern": pat if isinstance(pat, str) else pat.decode("latin-1"), "bytes": isinstance(pat, bytes),
@@ -116,7 +117,9 @@ def main():
             if isinstance(a, staticmethod): kind = "static"
             elif isinstance(a, classmethod): kind = "classmethod"
             elif isinstance(a, property): kind = "property"
-            elif isinstance(a, types.FunctionType): kind = "method"
+            elif isinstance(a, (types.FunctionType, types.MethodDescriptorType, types.WrapperDescriptorType, types.BuiltinFunctionType)): kind = "method"
+            elif isinstance(a, types.ClassMethodDescriptorType): kind = "classmethod"
+            elif isinstance(a, (types.GetSetDescriptorType, types.MemberDescriptorType)): kind = "slot"
             elif (cr := const_repr(a)) is not None: kind = "const"
             else: kind = "other"
             e = {"name": n, "kind": kind}
